@@ -376,6 +376,57 @@ theorem nnz_eq_nonzero_length (s : TState) (hc : Coherent s) : nnzAcc s = (nonze
       rw [ih os (by simpa using hlen) (fun r' hr' => hcols r' (List.mem_cons_of_mem _ hr'))]
       rw [nonzero_row_length o s.samp.ids r (hcols r (List.mem_cons_self ..))]
 
+/-! ### `nonzero()` at the level of the CSR arrays it walks -/
+
+/-- positions `(row, column)` of the stored entries, in storage order -/
+def storedPositions (cs : CS Rat) : List (Nat × Nat) :=
+  (List.range cs.nMajor).flatMap (fun i => (cs.slice i).map (fun e => (i, e.1)))
+
+/-- The walk of `nonzero()` never reads out of range on a well-formed matrix with one ID per row and
+column, and yields exactly the ID pairs of the stored positions, in storage order. -/
+theorem nonzeroKernel_ok (cs : CS Rat) (obsIds sampIds : List Id) (hwf : cs.WF)
+    (ho : obsIds.length = cs.nMajor) (hs : sampIds.length = cs.nMinor) :
+    nonzeroKernel cs obsIds sampIds =
+      .ok ((storedPositions cs).map (fun p => (obsIds.getD p.1 "", sampIds.getD p.2 ""))) := by
+  unfold nonzeroKernel
+  have hinner : ∀ i ∈ List.range cs.nMajor,
+      nzRow cs obsIds sampIds i =
+        .ok ((cs.slice i).map (fun e => (obsIds.getD i "", sampIds.getD e.1 ""))) := by
+    intro i hi
+    have hi' : i < obsIds.length := by rw [ho]; exact List.mem_range.mp hi
+    unfold nzRow
+    rw [getE_ok obsIds i hi']
+    simp only
+    apply mapE_ok
+    intro e he
+    have hlt : e.1 < sampIds.length := by
+      rw [hs]; exact hwf.inRange e.1 (slice_idx_in_indices cs i e he)
+    unfold nzLabel
+    rw [getE_ok sampIds e.1 hlt]
+    simp [List.getD_eq_getElem?_getD, List.getElem?_eq_getElem hlt, List.getElem?_eq_getElem hi']
+  rw [mapE_ok _ (fun i => (cs.slice i).map (fun e => (obsIds.getD i "", sampIds.getD e.1 ""))) _ hinner]
+  simp [storedPositions, List.map_flatMap, List.flatMap_def, Function.comp_def]
+
+/-- Without stored zeros the stored positions are exactly the non-zero cells of the dense matrix:
+`nonzero()` lists the non-zero cells, all of them and nothing else. -/
+theorem storedPositions_iff_nonzero (cs : CS Rat) (hwf : cs.WF) (hnz : cs.NoStoredZeros) (i j : Nat) :
+    (i, j) ∈ storedPositions cs ↔ i < cs.nMajor ∧ CS.entryAt (cs.slice i) j ≠ 0 := by
+  unfold storedPositions
+  simp only [List.mem_flatMap, List.mem_range, List.mem_map, Prod.mk.injEq]
+  constructor
+  · rintro ⟨i', hi', e, he, rfl, rfl⟩
+    refine ⟨hi', ?_⟩
+    have hnd := hwf.distinct i' hi'
+    rw [entryAt_of_mem' (cs.slice i') e.1 e.2 hnd he]
+    exact hnz e.2 (slice_val_in_data cs i' e he)
+  · rintro ⟨hi, hne⟩
+    have hmem : j ∈ (cs.slice i).map (·.1) := by
+      by_cases hm : j ∈ (cs.slice i).map (·.1)
+      · exact hm
+      · exact absurd (entryAt_not_mem' _ j hm) hne
+    obtain ⟨e, he, hej⟩ := List.mem_map.mp hmem
+    exact ⟨i, hi, e, he, rfl, hej⟩
+
 /-! Non-vacuity: the hypotheses are met by a concrete table and history, and the history really
 changes IDs, lookups and metadata. -/
 def demoArgs : CtorArgs :=
